@@ -107,7 +107,11 @@ func checkC08(c *Ctx) {
 		// receiver type; an accessor that merely delegates to another Message type's accessor inherits its status.
 		var isDerived func(m *ssa.Function, depth int) bool
 		isDerived = func(m *ssa.Function, depth int) bool {
-			if m.Name() == "GetChannel" {
+			// documented views over several message types (exported API, named here with the reason): GetChannel — every
+			// channel message has a channel; GetNoteStart / GetNoteEnd — "a note begins / ends", i.e. note-on with velocity
+			// > 0 resp. note-off or note-on with velocity 0. Further views are recognised by being built on another accessor.
+			switch m.Name() {
+			case "GetChannel", "GetNoteStart", "GetNoteEnd":
 				return true
 			}
 			if depth > 4 {
@@ -328,6 +332,25 @@ func checkC08(c *Ctx) {
 				c.Bad("C08.3", key, p.Pos(g.Pos()), "accessor accepts no cell at all (vacuous accessor)")
 			default:
 				c.Bad("C08.3", key, p.Pos(g.Pos()), "accessor may accept messages of several reported types: "+strings.Join(l, ","))
+			}
+		}
+		// a view accepts only messages of types that some type-specific accessor describes
+		specific := map[int64]bool{}
+		for _, g := range getters {
+			if !derived[g.Name()] {
+				for t := range accTypes[g.Name()] {
+					specific[t] = true
+				}
+			}
+		}
+		for _, g := range getters {
+			if !derived[g.Name()] {
+				continue
+			}
+			for t := range accTypes[g.Name()] {
+				if !specific[t] {
+					c.Bad("C08.3", tgt.label+"."+g.Name()+" (derived view) accepts an undescribed type", p.Pos(g.Pos()), fmt.Sprintf("the view accepts messages of type %d, which no type-specific accessor accepts", t))
+				}
 			}
 		}
 		// distinct accessors (non-derived) must have distinct types unless one wraps the other
